@@ -4,11 +4,14 @@ import HailVerif.Proofs.FifoSem
 
 Subject: `HailVerif.FifoSem.step/run`, the model of `FIFOWeightedSemaphore` (batch/batch/semaphore.py) whose steps are
 the atomic blocks between awaits; tied to the real class by the correspondence check `harness/props/c16.py`
-(real class under the deterministic event loop, state compared after every op).
+(real class under the deterministic event loop, state compared after every group of ops issued inside one loop
+iteration).
 
-Every theorem quantifies over ALL op lists `ops` (= all interleavings of acquires and releases by any number of
-tasks) whose weights do not exceed the capacity; `run … = some …` says the list respects the protocol (a release is
-issued only by a holder, a task id is not used twice at the same time).  Since every prefix of an op list is an op
+Every theorem quantifies over ALL op lists `ops` (= all interleavings of acquires, releases and resumptions of woken
+waiters by any number of tasks — in particular several releases, or a release and a new acquire, between the wake-up
+of a waiter and the moment it runs again) whose weights do not exceed the capacity; `run … = some …` says the list
+respects the protocol (a release is issued only by a task in the body, a task id is not used twice at the same time).
+`held s` counts the tasks in the body AND the woken waiters that have not run yet: a woken waiter owns its weight.  Since every prefix of an op list is an op
 list, "for the final state of every op list" is "after every step".  Cancellation of waiters is outside C16.
 -/
 namespace HailVerif.C16
@@ -19,9 +22,35 @@ variable (cap : Nat) (ops : List Op) (s : State) (es : List Ev)
 /-- Safety: the semaphore never grants more than its capacity — free value plus everything held is exactly the
 capacity, and the free value is never negative. -/
 theorem capacity_never_exceeded (hw : WeightsLe cap ops) (h : run (init cap) ops = some (s, es)) :
-    s.value + weights s.holders = cap ∧ 0 ≤ s.value :=
+    s.value + held s = cap ∧ 0 ≤ s.value :=
   let ⟨a, b, c⟩ := init_inv cap
   (run_inv cap ops _ s es hw a b c h).1
+
+/-- At every point the bodies that are running, together with the woken waiters about to run, use at most the capacity
+(so in particular the running bodies alone do). -/
+theorem running_le_capacity (hw : WeightsLe cap ops) (h : run (init cap) ops = some (s, es)) :
+    weights s.holders + weights s.granted ≤ cap ∧ weights s.holders ≤ cap := by
+  have := capacity_never_exceeded cap ops s es hw h
+  have nn : ∀ l : List (Nat × Nat), 0 ≤ weights l := by
+    intro l; induction l with
+    | nil => simp [weights]
+    | cons p l ih => rw [weights_cons]; omega
+  have := nn s.granted
+  unfold held at *
+  omega
+
+/-- A woken waiter that runs again only enters the body: the free value, the queue and the total handed out do not
+change — it already owned its weight. -/
+theorem resume_only_enters (s s' : State) (i : Nat) (e : List Ev) (h : step s (Op.resume i) = some (s', e)) :
+    s'.value = s.value ∧ s'.queue = s.queue ∧ held s' = held s ∧ i ∈ ids s'.holders := by
+  simp only [step] at h
+  split at h
+  · simp at h
+  · next w rest ht =>
+    simp at h; obtain ⟨rfl, rfl⟩ := h
+    have := take_weights _ _ _ _ ht
+    refine ⟨rfl, rfl, ?_, by simp [ids]⟩
+    simp only [held, weights_append, weights_cons, weights_nil]; omega
 
 /-- FIFO: the tasks granted out of the queue, in grant order, followed by the tasks still queued, in queue order, are
 exactly the tasks that ever had to queue, in arrival order.  (So the grant order of queued acquires is their arrival
@@ -35,7 +64,8 @@ theorem fifo (hw : WeightsLe cap ops) (h : run (init cap) ops = some (s, es)) :
 whether or not its weight would fit. -/
 theorem no_barging (s s' : State) (i w : Nat) (e : List Ev) (hq : s.queue ≠ [])
     (h : step s (Op.acquire i w) = some (s', e)) :
-    s'.queue = s.queue ++ [(i, w)] ∧ s'.holders = s.holders ∧ s'.value = s.value ∧ e = [Ev.enqueue i] := by
+    s'.queue = s.queue ++ [(i, w)] ∧ s'.holders = s.holders ∧ s'.granted = s.granted ∧ s'.value = s.value ∧
+      e = [Ev.enqueue i] := by
   simp only [step] at h
   split at h
   · simp at h
@@ -53,7 +83,7 @@ theorem no_blocked_head (hw : WeightsLe cap ops) (h : run (init cap) ops = some 
 
 /-- Consequence (no deadlock): when nobody holds anything, nobody is waiting. -/
 theorem idle_means_empty_queue (hw : WeightsLe cap ops) (h : run (init cap) ops = some (s, es))
-    (hidle : s.holders = []) : s.queue = [] := by
+    (hidle : s.holders = []) (hidle' : s.granted = []) : s.queue = [] := by
   obtain ⟨a, b, c⟩ := init_inv cap
   obtain ⟨⟨hsum, _⟩, hh, hq, _⟩ := run_inv cap ops _ s es hw a b c h
   cases hs : s.queue with
@@ -62,7 +92,7 @@ theorem idle_means_empty_queue (hw : WeightsLe cap ops) (h : run (init cap) ops 
     obtain ⟨i, w⟩ := p
     have h1 := hh i w q hs
     have h2 : w ≤ cap := hq (i, w) (by simp [hs])
-    simp [hidle, weights] at hsum
+    simp [held, hidle, hidle', weights] at hsum
     omega
 
 /-! Non-vacuity: protocol-respecting op lists exist and exercise queueing, draining several waiters, a blocked head
@@ -70,10 +100,20 @@ with a fitting follower, and the rejected misuse. -/
 
 -- cap 4: 0 takes 3; 1 (w2) queues; 2 (w1) would fit but queues behind 1; release 0 grants 1 then 2, in that order
 example : run (init 4) [.acquire 0 3, .acquire 1 2, .acquire 2 1, .release 0]
-    = some (⟨1, [], [(1, 2), (2, 1)]⟩, [.grantNow 0, .enqueue 1, .enqueue 2, .grantQueued 1, .grantQueued 2]) := by decide
+    = some (⟨1, [], [(1, 2), (2, 1)], []⟩, [.grantNow 0, .enqueue 1, .enqueue 2, .grantQueued 1, .grantQueued 2]) := by decide
 -- the head (w4) stays blocked after a partial release and keeps the fitting follower (w1) waiting
 example : run (init 4) [.acquire 0 2, .acquire 1 2, .acquire 2 4, .acquire 3 1, .release 0]
-    = some (⟨2, [(2, 4), (3, 1)], [(1, 2)]⟩, [.grantNow 0, .grantNow 1, .enqueue 2, .enqueue 3]) := by decide
+    = some (⟨2, [(2, 4), (3, 1)], [], [(1, 2)]⟩, [.grantNow 0, .grantNow 1, .enqueue 2, .enqueue 3]) := by decide
+-- two releases inside one loop iteration (no woken waiter has run in between): cap 2, A and B hold 1 each, C, D, E (1 each)
+-- queue; A and B release back to back: exactly C and D are woken, E keeps waiting, nothing is free; then C and D run
+example : run (init 2) [.acquire 0 1, .acquire 1 1, .acquire 2 1, .acquire 3 1, .acquire 4 1, .release 0, .release 1]
+    = some (⟨0, [(4, 1)], [(2, 1), (3, 1)], []⟩,
+        [.grantNow 0, .grantNow 1, .enqueue 2, .enqueue 3, .enqueue 4, .grantQueued 2, .grantQueued 3]) := by decide
+example : (run (init 2) [.acquire 0 1, .acquire 1 1, .acquire 2 1, .acquire 3 1, .acquire 4 1, .release 0, .release 1,
+      .resume 2, .resume 3]).map (·.1) = some ⟨0, [(4, 1)], [], [(2, 1), (3, 1)]⟩ := by decide
+-- a newcomer arriving between the wake-up of B and B running again finds nothing free: it queues (cap 2, weights 2)
+example : (run (init 2) [.acquire 0 2, .acquire 1 2, .release 0, .acquire 2 2]).map (·.1)
+    = some ⟨0, [(2, 2)], [(1, 2)], []⟩ := by decide
 -- a release by a task that does not hold is not a behaviour
 example : run (init 4) [.acquire 0 2, .release 1] = none := by decide
 example : WeightsLe 4 [.acquire 0 3, .acquire 1 2, .acquire 2 1, .release 0] := by
